@@ -259,6 +259,7 @@ def rule_r3(prog, res) -> None:
     good = False
     per_cat = False
     in_loop = False
+    masked = None
     for p in raising:
         for t, pol in p.literals():
             if not pol:
@@ -278,6 +279,11 @@ def rule_r3(prog, res) -> None:
                     continue
                 if far and not near:
                     good = True
+                # … for ALL patches: neither side is restricted to a selection (a mask that leaves out, say, patches of zero
+                # radius exempts exactly the patches whose every displacement is "farther than the radius")
+                for y in ast.walk(l):
+                    if isinstance(y, ast.Subscript) and any(isinstance(z, (ast.Compare, ast.BoolOp)) or (isinstance(z, ast.UnaryOp) and isinstance(z.op, ast.Invert)) or (isinstance(z, ast.Call) and (dotted(z.func) or "").split(".")[-1] in ("where", "nonzero", "flatnonzero", "isfinite", "isnan", "argwhere")) for z in ast.walk(y.slice)):
+                        masked = y
                 if any("get_centers" in unparse(c) for c in num_dist):
                     per_cat = True
                 def whole(e) -> bool:
@@ -290,7 +296,9 @@ def rule_r3(prog, res) -> None:
 
                 if vararg and symx.mentions(l.left, lambda y: isinstance(y, ast.Call) and isinstance(y.func, ast.Name) and y.func.id == symx.ELEM and y.args and whole(y.args[0])):
                     in_loop = True
-    if good and rt is not None and rt <= 1 and in_loop and per_cat:
+    if masked is not None:
+        res.violation("C12.R3", cc, cc.node, f"the alignment test is applied to a selection of the patches only (`{unparse(masked)[:70]}`): the patches left out — e.g. single-object patches of zero radius, for which every displacement is farther than the radius — are never refused", key_extra="alignment-check-masked")
+    elif good and rt is not None and rt <= 1 and in_loop and per_cat:
         res.ok("C12.R3", res.site(cc), f"for every other catalog: raises if centre distance / radius > rtol (= {rt} <= 1)")
     else:
         res.violation("C12.R3", cc, cc.node, f"the alignment check does not raise for every other catalog when its centres are farther than the patch radius (test ok={good}, rtol={rt}, loops over all={bool(in_loop)})", key_extra="alignment-check")
